@@ -245,3 +245,15 @@ func tokenizeSexp(s string) []string {
 	}
 	return toks
 }
+
+// quickUnsat runs one z3-new process on the script (via stdin) and reports whether it answered unsat.
+func quickUnsat(script string, timeoutMs int) bool {
+	ctx, cancel := context.WithTimeout(context.Background(), time.Duration(timeoutMs+500)*time.Millisecond)
+	defer cancel()
+	cmd := exec.CommandContext(ctx, "z3-new", "-in", fmt.Sprintf("-t:%d", timeoutMs))
+	cmd.Stdin = strings.NewReader(script)
+	var out bytes.Buffer
+	cmd.Stdout = &out
+	cmd.Run()
+	return firstLine(out.String()) == "unsat"
+}
